@@ -151,10 +151,26 @@ def build_instance(spec, name="verif"):
     from job_shop_lib import JobShopInstance, Operation
 
     # The same instance can reach the library through three documented doors; which one is used is a function of
-    # the instance (so every case replays identically): the constructor (70%), JobShopInstance.from_matrices, or
+    # the instance (so every case replays identically): the constructor (70%, of which 20% with re-used / subclassed Operation objects), JobShopInstance.from_matrices, or
     # a dictionary that went through JSON and back (to_dict -> json -> from_matrices, what the benchmark loader
     # and Schedule.from_dict do). Properties quantify over instances, not over how they were typed in.
     route = int(case_hash(spec)[:6], 16) % 10
+    if route in (3, 4) and spec:
+        # Operation objects with a past: instances of a user SUBCLASS carrying extra attributes (the documented way
+        # of attaching due dates, priorities, release dates to operations - none of them means anything to the
+        # library), first packed into ANOTHER instance (jobs and operations in reverse order), then into this one.
+        # JobShopInstance.__init__ assigns job_id / position_in_job / operation_id afresh every time.
+        class TaggedOperation(Operation):
+            __slots__ = ("due_date", "release_date", "priority")
+
+            def __init__(self, machines, duration):
+                super().__init__(machines, duration)
+                self.due_date, self.release_date, self.priority = 7, 5, 3
+
+        cls = TaggedOperation if route == 3 else Operation
+        jobs = [[cls(list(ms), d) for ms, d in job] for job in spec]
+        JobShopInstance([list(reversed(job)) for job in reversed(jobs)], name="an earlier arrangement")
+        return JobShopInstance(jobs, name=name)
     if route >= 3 or not spec:
         jobs = [[Operation(list(ms), d) for ms, d in job] for job in spec]
         return JobShopInstance(jobs, name=name)
